@@ -15,6 +15,18 @@ def lib_threads():
     return [t for t in threading.enumerate() if type(t).__module__.startswith("watchdog") and t.is_alive()]
 
 
+def quiet_stop(t):
+    """clean-up after a reported failure: ask a left-over library thread to stop, without waiting for a stop() that blocks"""
+    def go():
+        try:
+            t.stop()
+        except Exception:  # noqa: BLE001
+            pass
+    h = threading.Thread(target=go, daemon=True)
+    h.start()
+    h.join(1)
+
+
 def with_deadline(fn, secs, what, out):
     t = threading.Thread(target=fn, daemon=True)
     t.start()
@@ -70,6 +82,17 @@ def run_sequence(kind, seq):
                 time.sleep(0.15)
             elif op == "rmroot":
                 shutil.rmtree(base, ignore_errors=True)
+                time.sleep(0.15)
+            elif op == "movein":
+                # a populated directory arrives from outside the watched tree
+                src = tempfile.mkdtemp(prefix="c06in")
+                try:
+                    os.makedirs(os.path.join(src, "t", "sub"))
+                    os.rename(os.path.join(src, "t"), os.path.join(base, "in%d" % time.monotonic_ns()))
+                except OSError:
+                    pass
+                finally:
+                    shutil.rmtree(src, ignore_errors=True)
                 time.sleep(0.15)
         for op in seq:
             if not with_deadline(lambda op=op: apply_op(op), 5, f"{kind}: {op} in {seq}", out):
@@ -166,7 +189,7 @@ def failed_start_then_stop():
         for t in left:
             if hasattr(t, "stop"):
                 try:
-                    t.stop()
+                    quiet_stop(t)
                 except Exception:
                     pass
         try:
@@ -208,7 +231,7 @@ def stop_during_start(which):
     if alive:
         out.append(f"{which}() while start() was between an emitter's on_thread_start() and Thread.start(): the emitter thread keeps running after stop()+join() (nothing can stop it any more)")
         for e in alive:
-            e.stop()
+            quiet_stop(e)
     return out
 
 
@@ -254,7 +277,7 @@ def thread_start_fails():
             out.append(f"start() failed at the emitter's Thread.start(); after stop()+join() these library threads still run (nothing can reach them any more): {sorted(type(t).__name__ for t in left)}")
             for t in left:
                 try:
-                    t.stop()
+                    quiet_stop(t)
                 except Exception:
                     pass
     finally:
@@ -326,7 +349,7 @@ def unschedule_vs_stop():
     if alive:
         out.append(f"after unschedule() || stop() and join(): {len(alive)} library thread(s) still alive")
         for e in alive:
-            e.stop()
+            quiet_stop(e)
         try:
             obs.event_queue.put_nowait(BaseObserver.stop_event)
         except Exception:
@@ -355,10 +378,10 @@ def main():
         else:
             pr = flood() if c["kind"] == "flood" else run_sequence(c["observer"], c["seq"])
         replay_result(bool(pr), pr[:2])
-    bat = Battery({"observers": ["inotify", "polling"], "sequence length": 3, "operations": "start, schedule, schedule with a callback that stops/unschedules, unschedule, unschedule_all, stop, touch, remove root", "deadline per call": "5 s"})
-    ops = ["start", "schedule", "schedule:stop", "schedule:unschedule_all", "unschedule", "unschedule_all", "stop", "touch", "rmroot"]
+    bat = Battery({"observers": ["inotify", "polling"], "sequence length": 3, "operations": "start, schedule, schedule with a callback that stops/unschedules, unschedule, unschedule_all, stop, touch, remove root, move a directory in", "deadline per call": "5 s"})
+    ops = ["start", "schedule", "schedule:stop", "schedule:unschedule_all", "unschedule", "unschedule_all", "stop", "touch", "rmroot", "movein"]
     seqs = [s for s in itertools.product(ops, repeat=3)]
-    named = [("start", "stop", "stop"), ("schedule", "start", "rmroot"), ("start", "schedule:stop", "touch"), ("schedule:unschedule_all", "start", "touch"), ("start", "schedule", "stop"), ("schedule", "start", "stop")]
+    named = [("start", "stop", "stop"), ("schedule", "start", "rmroot"), ("start", "schedule:stop", "touch"), ("schedule:unschedule_all", "start", "touch"), ("start", "schedule", "stop"), ("schedule", "start", "stop"), ("schedule", "start", "movein"), ("start", "schedule", "movein")]
     rng.shuffle(seqs)
     chosen = named + seqs[: (18 if TIER == "quick" else 250)]
     for kind in ("inotify", "polling"):
@@ -399,3 +422,6 @@ def main():
 
 
 main()
+# library threads that a changed tree left stuck are not daemons: do not wait for them at interpreter exit
+sys.stdout.flush()
+os._exit(0)
